@@ -10,8 +10,12 @@ def run(prog, rep, tier):
                   "a word denoting the same constant, and dw_simple_dom::show prints the table entry unchanged; Z2: each row of the brief string "
                   "writer's escape table is an escape the lexer (escape switch + octal/hex rules of lexer.ll) reads back as the same single byte and "
                   "every character that is special inside a string literal has a row; Z3: hex fields printed with setw() are zero filled.")
-    rep.not_decided = ("radix round-trip of integers for all values (depends on iostream semantics, e.g. `0 hex` prints `0`), and the numeric values "
-                       "of constants against the DWARF/ELF standards beyond what the system headers define.")
+    rep.clause += (" Z4: the show members of the dec/hex/oct/bin domains with the mpz_class inserter, comparison and negation they use, interpreted "
+                   "from source with std::ostream's radix/showbase formatting modelled, on 0 and on 2^k, 2^(k+1)-1 (k = 0..63) in every "
+                   "representation and sign: the text is an integer literal of the lexer's syntax that reads back as the same value in the same "
+                   "domain (three known findings: zero of the hex/oct/bin domains prints `0`).")
+    rep.not_decided = ("the numeric values of constants against the DWARF/ELF standards beyond what the system headers define; the radix renderings "
+                       "embedded in other values (addresses, offsets), which use the same iostream formatting.")
     r = r_tables.z1(prog)
     apply(rep, "Z1", "named constants round-trip through the vocabulary", (r[0], r[1]), 20)
     rep.extra["Z1_constants"] = r[2]
@@ -21,4 +25,5 @@ def run(prog, rep, tier):
           ([i for i in q[0] if i[0].startswith(("Q1i:", "Q1ii"))], [f for f in q[1] if f["key"].startswith(("Q1i:", "Q1ii"))]), 2)
     apply(rep, "Z2", "escape tables of writer and reader agree", r_tables.z2(prog), 12)
     apply(rep, "Z3", "hex fields are zero filled", r_tables.z3(prog), 2)
+    apply(rep, "Z4", "integers render in their domain's radix and read back as the same value of the same domain (renderers interpreted on every bit length)", r_tables.z4(prog, tier), 4)
     maybe_mutants("C20", rep, tier)
